@@ -196,6 +196,7 @@ def r3(ctx, rep):
     gt = factor(gt)
     key = Tm("param", (1, "key"))
     branches = {}
+    unreadable = False
     cur = gt.a[2] if gt.k == "call" and gt.a[0] == VAL + "::get" and len(gt.a) == 3 else None
     okshape = cur is not None
     while cur is not None and cur.k == "if":
@@ -215,14 +216,22 @@ def r3(ctx, rep):
                     stripped = body.a[2].a[1]
             elif f.k == "lit":
                 stripped = f.a[1]
+        if q is None and stripped is None:
+            unreadable = True
         if q is None or stripped != q:
             okshape = False
         else:
             branches[q] = True
         cur = cur.a[2]
+    if cur is None or (cur != key and not branches):
+        unreadable = True
     okshape = okshape and cur == key and set(branches) == {"'", '"'}
-    rep.check(okshape, "C13-R3", "quote-styles", prog.loc_of(gp), "sibling branches for ' and \" then the bare key",
-              "<Value as Queryable>::get does not treat single- and double-quoted names by two branches of identical shape: `%s`" % gt)
+    if not okshape and unreadable:
+        rep.unrecognised("C13-R3", "quote-styles", prog.loc_of(gp), "how <Value as Queryable>::get strips the quotes of a bracketed name could not be read "
+                         "(expected sibling branches for ' and \" then the bare key): `%s`" % str(gt)[:300])
+    else:
+        rep.check(okshape, "C13-R3", "quote-styles", prog.loc_of(gp), "sibling branches for ' and \" then the bare key",
+                  "<Value as Queryable>::get does not treat single- and double-quoted names by two branches of identical shape: `%s`" % gt)
     # ?e vs ?(e): FilterAtom::Filter with not = false is the identity (C05-R3 row)
     ap = prog.impl_method("crate::query::Query", M + "FilterAtom", "process")
     at = ev.summary(ap)
